@@ -115,6 +115,11 @@ def check_layouts(ctx, rule_layout="C02.layout", rule_signed="C02.signed", codec
                     b = [b for k, b in here if k == n][0]
                     ctx.ob(rule_layout, rcon, f"reader:{n}@{lsb}", b.width == w and b.scale == 0,
                            f"field {n}: reader takes {b.width} bits (scale {b.scale}), spec width {w}", f"{b.rel or rfi.module.rel}:{b.line}")
+                    if getattr(b, "partial", False):
+                        ctx.ob(rule_layout, rcon, f"reader:{n}:every-branch", False,
+                               f"field {n} is taken from the wire only on some branches; on the others the decoder substitutes a "
+                               f"constant, so the value a conformant encoder put on the wire (incl. reserved/unknown code points) "
+                               f"is not returned / not validated", f"{b.rel or rfi.module.rel}:{b.line}")
                     if signed and b.owner == rcon:
                         ctx.ob(rule_signed, rcon, f"reader:{n}", b.signed,
                                f"signed {w}-bit field {n} is " + ("sign-extended" if b.signed else
